@@ -237,6 +237,8 @@ def machine(acc: Acc, tier, shard, nshards):
             self.V = W.Validator()
             self.hist = []
             self.special = False
+            self.inc_parser = None
+            self.inc_dir = None
 
         def _fail(self, bucket, msg):
             state["fail"] = (bucket, msg, list(self.hist))
@@ -318,7 +320,40 @@ def machine(acc: Acc, tier, shard, nshards):
             if a != b:
                 self._fail("history:validate", f"reused Validator gives {str(a)[:150]}, a fresh one {str(b)[:150]} (version {version}) for {text!r:.100}")
 
+        @rule(folder=st.sampled_from(["a", "b"]), rewrite=st.booleans(), name=st.sampled_from(["roads", "lakes", "towns", "x y"]),
+              typ=st.sampled_from(["POINT", "LINE", "POLYGON"]), how=st.sampled_from(["parse_file", "load"]))
+        def parse_with_includes(self, folder, rewrite, name, typ, how):
+            # one Parser (expand_includes on) over Mapfiles in two folders that INCLUDE a file of the same relative name
+            if self.inc_parser is None:
+                self.inc_parser = W.Parser(expand_includes=True)
+                self.inc_dir = tempfile.mkdtemp(prefix="mfv_c12i_")
+                for i, f in enumerate(("a", "b")):
+                    os.makedirs(os.path.join(self.inc_dir, f))
+                    with open(os.path.join(self.inc_dir, f, "main.map"), "w") as fh:
+                        fh.write('MAP\n  NAME "%s"\n  INCLUDE "layer.map"\nEND\n' % f)
+                    with open(os.path.join(self.inc_dir, f, "layer.map"), "w") as fh:
+                        fh.write('LAYER\n  NAME "initial_%s"\n  TYPE POINT\nEND\n' % f)
+            if rewrite:
+                with open(os.path.join(self.inc_dir, folder, "layer.map"), "w") as fh:
+                    fh.write('LAYER\n  NAME "%s"\n  TYPE %s\nEND\n' % (name, typ))
+            path = os.path.join(self.inc_dir, folder, "main.map")
+            self.hist.append(["parse_with_includes", folder, rewrite, name, typ, how])
+            self.special = True
+
+            def run(parser):
+                if how == "parse_file":
+                    return snap(W.m2d().transform(parser.parse_file(path)))
+                with open(path, encoding="utf-8") as fh:
+                    return snap(W.m2d().transform(parser.load(fh)))
+
+            a = result_of(lambda: run(self.inc_parser))
+            b = result_of(lambda: run(W.Parser(expand_includes=True)))
+            if a != b:
+                self._fail("history:parse_includes", f"reused Parser gives {str(a)[:200]} but a fresh one {str(b)[:200]} for {path} ({how})")
+
         def teardown(self):
+            if getattr(self, "inc_dir", None):
+                shutil.rmtree(self.inc_dir, ignore_errors=True)
             h = getattr(self, "hist", [])
             acc.evaluations += max(1, len(h))
             if getattr(self, "special", False):
